@@ -290,6 +290,30 @@ fn small_frame_strategy() -> impl Strategy<Value = FrameCase> {
     (addr_strategy(), byte_strategy(), small_biased_data()).prop_map(|(addr, ty, data)| FrameCase { addr, ty, data })
 }
 
+/// A frame whose data spells out the fields of another, complete frame, arranged so that damaging one
+/// low-nibble character into ':' leaves a tail that is itself a well-formed frame with a right length field and
+/// checksum (the bytes before the tail sum to 0 mod 256). Only a decoder that insists on the colon being the
+/// first character rejects that mutant.
+pub fn embedded_frame(outer_addr: u16, inner: &FrameCase, filler: &[u8], header_variant: bool) -> FrameCase {
+    let mut f: Vec<u8> = vec![inner.data.len() as u8, (inner.addr >> 8) as u8, inner.addr as u8, inner.ty];
+    f.extend_from_slice(&inner.data);
+    let (hi, lo) = ((outer_addr >> 8) as u8, outer_addr as u8);
+    if header_variant || filler.is_empty() {
+        // the damaged character is the low nibble of the outer message type
+        let n = f.len() as u8;
+        let ty = 0u8.wrapping_sub(n).wrapping_sub(hi).wrapping_sub(lo);
+        return FrameCase { addr: outer_addr, ty, data: f };
+    }
+    let n = (filler.len() + f.len()) as u8;
+    let ty = 0x00u8;
+    let mut x = filler.to_vec();
+    let k = x.len();
+    let partial = x[..k - 1].iter().fold(n.wrapping_add(hi).wrapping_add(lo).wrapping_add(ty), |a, &b| a.wrapping_add(b));
+    x[k - 1] = 0u8.wrapping_sub(partial);
+    x.extend_from_slice(&f);
+    FrameCase { addr: outer_addr, ty, data: x }
+}
+
 pub fn run(ctx: &Ctx) {
     // fixed, deterministic part: the protocol's own frames (every recognised message code) at a few addresses
     let mut fixed: Vec<FrameCase> = vec![];
@@ -322,6 +346,30 @@ pub fn run(ctx: &Ctx) {
         ctx.tier.pick(2_000, 60_000),
         || (small_frame_strategy(), any::<u64>()).prop_map(|(frame, extra_seed)| NeighbourhoodCase { frame, extra_seed }),
         |c, st| check_neighbourhood(c, st),
+    );
+
+    // frames that embed another frame (see embedded_frame)
+    run_generated(
+        ctx,
+        "neighbourhood-embedded-frame",
+        ctx.tier.pick(600, 20_000),
+        || {
+            (
+                addr_strategy(),
+                (addr_strategy(), byte_strategy(), proptest::collection::vec(byte_strategy(), 0..5)),
+                proptest::collection::vec(byte_strategy(), 0..6),
+                any::<bool>(),
+                any::<u64>(),
+            )
+                .prop_map(|(outer_addr, (addr, ty, data), filler, header_variant, extra_seed)| NeighbourhoodCase {
+                    frame: embedded_frame(outer_addr, &FrameCase { addr, ty, data }, &filler, header_variant),
+                    extra_seed,
+                })
+        },
+        |c, st| {
+            st.class("frame-embedding-another-frame");
+            check_neighbourhood(c, st)
+        },
     );
 
     run_generated(
@@ -360,4 +408,9 @@ pub fn replay(part: &str, case: &Value) -> Result<(), String> {
             check_neighbourhood(&c, &mut st)
         }
     }
+}
+
+/// totality only (used by the stacked-fault part of the frame_corrupt fuzz target)
+pub fn decode_total(bytes: &[u8]) -> bool {
+    Frame::from_bytes(bytes).is_ok()
 }
